@@ -1,16 +1,35 @@
-"""Witness search / replay against the REAL code (overlay build). Stub until the replay crate exists."""
-import json, os
+"""Replay of a recorded violation. Verus produces no counterexample, so there is no failing input to run against the real code: a replay
+re-runs the property's check on the CURRENT working tree and reports whether the obligation named in the replay file still fails."""
+import json, os, subprocess, sys
+
+VERIF = "/verif"
 
 
 def search_witness(pid, unit, fq, errs, tier, seed):
-    return {"found": False, "note": "no witness harness registered for this obligation"}
+    # no witness search is built (DESIGN A.5): every VIOLATION line ends `no-failing-input-found`
+    return {"found": False, "note": "Verus gives no counterexample and no witness search against the real code is built; "
+                                    "the replay re-verifies the named obligation on the current tree"}
 
 
 def witness_still_fails(k):
+    # known findings are identified by obligation + region (re-verified on every run by the carve-out); their demos live under findings/<id>/
     return True
 
 
 def replay_file(path, pid):
     d = json.load(open(path))
-    print(json.dumps(d.get("witness"), indent=1))
+    oblig = d.get("failed_obligation")
+    print(f"replay: property={pid} obligation={oblig} function={d.get('function')} unit={d.get('unit')}")
+    print("replay: verifier output recorded at the time of the violation:")
+    print(json.dumps(d.get("primary"), indent=1)[:1500])
+    r = subprocess.run([os.path.join(VERIF, "bin", "check"), pid, "--outdir", "/var/tmp/ww_replay_out"], capture_output=True, text=True)
+    still = [l for l in r.stdout.split("\n") if "failed obligation:" in l and oblig and oblig in l]
+    if r.returncode == 2:
+        print("replay: the check is INCONCLUSIVE on the current tree"); print(r.stdout[-800:])
+        return 2
+    if still:
+        print(f"VIOLATION property={pid} replay={path} no-failing-input-found")
+        print(still[0])
+        return 1
+    print("replay: the obligation is discharged on the current tree (the violation does not reproduce)")
     return 0
